@@ -342,7 +342,11 @@ impl GqlTranslator {
                 });
             }
 
-            plan = apply_skip_limit(plan);
+            // RETURN DISTINCT removes duplicates before the SKIP/LIMIT window is taken
+            let distinct = query.return_clause.distinct;
+            if !distinct {
+                plan = apply_skip_limit(plan);
+            }
 
             // Apply RETURN
             let return_items = query
@@ -359,9 +363,12 @@ impl GqlTranslator {
 
             plan = LogicalOperator::Return(ReturnOp {
                 items: return_items,
-                distinct: query.return_clause.distinct,
+                distinct,
                 input: Box::new(plan),
             });
+            if distinct {
+                plan = apply_skip_limit(plan);
+            }
         }
 
         Ok(LogicalPlan::new(plan))
